@@ -7,5 +7,5 @@ WT=/tmp/mut/x_$TAG
 git -C /repo worktree remove --force "$WT" >/dev/null 2>&1
 git -C /repo worktree add --detach "$WT" HEAD >/dev/null 2>&1 || { echo "cannot create worktree"; exit 2; }
 if ! git -C "$WT" apply "$M/patch.diff" 2>/dev/null; then echo "$TAG: patch does not apply to HEAD"; git -C /repo worktree remove --force "$WT"; exit 2; fi
-"$(dirname "$0")/mutrun.sh" "$WT" "/tmp/stage/res/$TAG" "$TIER" "$@" | sed "s/^/$TAG: /"
+"$(dirname "$0")/mutrun.sh" "$WT" "${STAGE_RES:-/tmp/stage/res}/$TAG" "$TIER" "$@" | sed "s/^/$TAG: /"
 git -C /repo worktree remove --force "$WT" >/dev/null 2>&1
